@@ -103,6 +103,7 @@ def witness(fa, case, r, model, kind="path"):
         "view": [view[0], [str(x) for x in view[1]]],
         "trace": r.path.trace, "steps": r.path.steps, "uses": builtin_uses(r.path),
         "ap_end": r.path.ap - r.path.entry_fp,
+        "loose": any(h.loose for h in r.path.hints),
     }
 
 
@@ -164,6 +165,7 @@ def _c02(dump_path, fname, tier):
                 else:
                     ev = make_ev(q.model)
                     out["candidates"].append({"query": qn + ":" + r.status, "func": f["name"],
+                                              "loose": any(h.loose for h in p.hints),
                                               "args": args_of(case, ev),
                                               "gas": gas_in(fa, case, ev), "why": r.status})
                 continue
@@ -189,6 +191,7 @@ def _c02(dump_path, fname, tier):
                     else:
                         ev = make_ev(model)
                         out["candidates"].append({
+                            "loose": any(h.loose for h in p.hints),
                             "query": f"{qn}:check{k}", "func": f["name"], "args": args_of(case, ev),
                             "gas": gas_in(fa, case, ev), "why": f"failure edge {c.info}"})
                 s.add(c.e)
